@@ -77,10 +77,10 @@ def tagSelfloops (g : LGraph) : LGraph := g.setTags g.selfloopNodes .selfloop tr
 
 /-- candidates of a column node as stored in the key object -/
 def cands (g : LGraph) (n : Node) : List (DS × String) :=
-  match g.payload n with | some c => c.parents | none => []
+  match g.payload n with | some (.col c) => c.parents | _ => []
 
 def rawOf (g : LGraph) (n : Node) : String :=
-  match g.payload n with | some c => c.raw | none => ""
+  match g.payload n with | some (.col c) => c.raw | _ => ""
 
 /-- `[(s, t) for s, t in g.edges if isinstance(s, Column) and len(s.parent_candidates) > 1]` (holders.py:411) -/
 def unresolved (g : LGraph) : List (Node × Node) :=
@@ -112,7 +112,7 @@ def resolveOne (prov : Prov) (g : LGraph) (e : Node × Node) : Except Err LGraph
         | _ => [])
     else []
   let srcs := inGraph ++ fromProv
-  let g1 := srcs.foldl (fun g c => g.addEdge c.key tgt .lineage none (some c) none) g
+  let g1 := srcs.foldl (fun g c => g.addEdge c.key tgt .lineage none (some (.col c)) none) g
   if srcs.isEmpty then .ok g1
   else match g1.removeEdge? u tgt with
     | some g2 => .ok g2
